@@ -543,6 +543,143 @@ def oracle_iradon_linear(case):
     return None
 
 
+# ---- amplitude scale of the data.  Both transforms are linear and scikit-image's functions are too, so every clause of
+# the property holds at every amplitude of the images / sinograms, JUDGED IN RELATIVE TERMS (error / max|data|): the
+# same data multiplied by c = m x 10^k (k = -12 .. 12, far inside the float32 range: no overflow, nothing subnormal
+# above 1e-7 of the maximum) must give (1) c x the result of the unscaled data, (2) scikit-image's result for the scaled
+# data, and (3) inside a batch whose entries have DIFFERENT amplitudes (one of them O(1)), the result of the per-image
+# call - each entry judged relative to ITS OWN amplitude.
+AMP_EXPONENTS = list(range(-12, 13))
+AMP_MANTISSAS = [1.0, 2.5, 7.3]
+HOMOG_RTOL = 5e-5        # = 5 x LIN_RTOL; measured on the unchanged code: <= 4e-7 at every scale
+
+
+def amp_class(k):
+    return "small-amplitude" if k <= -4 else "large-amplitude" if k >= 4 else "moderate-amplitude"
+
+
+def amp_bucket(k):
+    return "1e-12..1e-7" if k <= -7 else "1e-6..1e-1" if k < 0 else "1e0" if k == 0 else "1e1..1e6" if k <= 6 else "1e7..1e12"
+
+
+def _scale_parts(case):
+    """-> (size, theta, data(kind, seed), port(x) -> [B, ., .], ref(x), mag(x), ok-mask or None, label)"""
+    ir = case["transform"] == "iradon"
+    size = case["N"] if ir else case["n"]
+    f64 = case.get("dtype") == "float64"
+    dt = np.float64 if f64 else np.float32
+    theta = make_theta(case["theta_kind"], case["A"], case["seed"])
+
+    def data(kind, seed):
+        x = (make_sino(kind, size, theta, seed) if ir else make_image(kind, size, seed)).astype(dt)
+        return x * F64_FACTOR if f64 else x
+
+    if ir:
+        filt, circle = case["filter"], case["circle"]
+        port = lambda x: run_iradon_port(x, theta, filt, circle)            # noqa: E731
+        ref = lambda x: run_iradon_sk(x, theta, filt, circle)               # noqa: E731
+        mag = lambda x: max(float(np.abs(x).max()), 1e-300)                 # noqa: E731
+        ok = well_conditioned(size, theta, circle, None)
+        label = "iradon_torch(filter_name=%r, circle=%s) on %d projections of %d pixels" % (filt, circle, len(theta), size)
+    else:
+        port = lambda x: run_radon_port(x, theta)                           # noqa: E731
+        ref = lambda x: run_radon_sk(x, theta)                              # noqa: E731
+        mag = lambda x: size * max(float(np.abs(x * disc(size)).max()), 1e-300)     # noqa: E731
+        ok = None
+        label = "radon_torch on a %dx%d image, %d angles" % (size, size, len(theta))
+    return size, theta, dt, data, port, ref, mag, ok, label
+
+
+def scale_data(case):
+    """the scaled array of the case and the mixed-amplitude batch (entry case['pos'] is the scaled array itself)"""
+    size, theta, dt, data, port, ref, mag, ok, label = _scale_parts(case)
+    c = case["m"] * 10.0 ** case["k"]
+    x = data(case["data_kind"], case["seed"])
+    cx = (x * dt(c)).astype(dt)
+    kinds = SINO_KINDS if case["transform"] == "iradon" else IMG_KINDS
+    batch = []
+    for b, kb in enumerate(case["ks"]):
+        if b == case["pos"]:
+            batch.append(cx)
+        else:
+            batch.append((data(kinds[(b + case["seed"]) % 5], case["seed"] + 31 * (b + 1)) * dt(10.0 ** kb)).astype(dt))
+    return c, x, cx, np.stack(batch)
+
+
+def oracle_scale(case):
+    size, theta, dt, data, port, ref, mag, ok, label = _scale_parts(case)
+    tr, k = case["transform"], case["k"]
+    c, x, cx, batch = scale_data(case)
+    dtn = np.dtype(dt).name
+    where = "%s, %s %s data of amplitude max|data| = %.3g (= %.3g x an O(1) array), angles %s %s" % (
+        label, dtn, case["data_kind"], float(np.abs(cx).max()), c, case["theta_kind"], _short_theta(theta))
+
+    def rel(a, b, m, mask=None):
+        d = np.abs(a - b)
+        if mask is not None:
+            d = np.where(mask, d, 0.0)
+        if not (np.isfinite(a).all() and a.shape == b.shape):
+            return float("inf"), (0, 0)
+        return (float(d.max()) / m if d.size else 0.0), np.unravel_index(int(np.argmax(d)), d.shape) if d.size else (0, 0)
+
+    base = port(x)[0]
+    got = port(cx)[0]
+    m = mag(cx)
+    # (1) homogeneity f(c x) = c f(x), relative to c max|x|
+    e, at = rel(got, c * base, m)
+    case["_hom"] = e
+    if not e <= HOMOG_RTOL:
+        return ("scale-%s-homogeneity-%s" % (tr, amp_class(k)),
+                "%s is not homogeneous: f(c x) != c f(x) for c = %.3g: %s; at %s f(c x) = %.6g, c f(x) = %.6g (max "
+                "difference %.3g x c max|x|, tolerance %.0e; max|f(c x)| = %.3g, c max|f(x)| = %.3g)"
+                % (tr + "_torch", c, where, tuple(int(i) for i in at), got[at], c * base[at], e, HOMOG_RTOL,
+                   float(np.abs(got).max()), c * float(np.abs(base).max())), {"rel": e})
+    # (2) scikit-image on the scaled data, relative to max|c x|
+    rf = ref(cx)
+    tol = IRADON_RTOL if tr == "iradon" else RADON_RTOL
+    e, at = rel(got, rf, m, ok)
+    case["_rel"] = e
+    if not e <= tol:
+        return ("scale-%s-vs-skimage-%s" % (tr, amp_class(k)),
+                "%s differs from skimage.transform.%s on low / high amplitude data: %s; at %s torch %.6g skimage %.6g "
+                "(max error %.3g x max|data|, tolerance %.0e)" % (tr + "_torch", tr, where, tuple(int(i) for i in at),
+                                                                  got[at], rf[at] if rf.shape == got.shape else float("nan"),
+                                                                  e, tol), {"rel": e})
+    # (3) a batch of entries of different amplitudes = the per-image calls, each relative to its own amplitude
+    gb = port(batch)
+    for b in range(len(batch)):
+        one = got if b == case["pos"] else port(batch[b])[0]
+        e, at = rel(gb[b], one, mag(batch[b]))
+        if not e <= SAME_RTOL * 10:
+            return ("scale-%s-batched-vs-single-%s" % (tr, amp_class(case["ks"][b])),
+                    "%s on a batch of %d entries of amplitudes %s differs from the per-image call for entry %d (amplitude "
+                    "%.3g): %s; at %s batched %.6g, alone %.6g (max difference %.3g x that entry's amplitude, tolerance %.0e)"
+                    % (tr + "_torch", len(batch), ["%.3g" % float(np.abs(z).max()) for z in batch], b,
+                       float(np.abs(batch[b]).max()), where, tuple(int(i) for i in at), gb[b][at], one[at], e,
+                       SAME_RTOL * 10), {"rel": e, "entry": b})
+    return None
+
+
+def gen_scale_case(r, i):
+    """one amplitude-scale case: transform x size x data kind x angle set x dtype x exponent k in -12..12 x mantissa;
+    the batch holds the scaled array, an O(1) array and arrays of other random amplitudes, in random positions"""
+    tr = "iradon" if i % 3 else "radon"
+    k = AMP_EXPONENTS[(7 * i + r.randrange(3)) % len(AMP_EXPONENTS)] if i % 5 else r.choice([-12, -10, -9, -8, 8, 10, 12])
+    B = r.choice([2, 3, 4])
+    ks = [k, 0] + [r.choice(AMP_EXPONENTS) for _ in range(B - 2)]
+    pos = r.randrange(B)
+    ks[0], ks[pos] = ks[pos], ks[0]
+    case = {"kind": "scale", "transform": tr, "k": k, "m": AMP_MANTISSAS[i % 3], "ks": ks, "pos": pos,
+            "dtype": "float64" if i % 4 == 3 else "float32",
+            "theta_kind": r.choice(THETA_KINDS), "A": r.choice([1, 2, 3, 5, 9]), "seed": r.randrange(1 << 30)}
+    size = r.choice(list(range(2, 41)) + [8, 16, 31, 32, 33])
+    if tr == "iradon":
+        case.update(N=size, filter=FILTERS[(i // 3) % 6], circle=i % 7 != 0, data_kind=SINO_KINDS[(i // 2) % 5])
+    else:
+        case.update(n=size, data_kind=IMG_KINDS[(i // 2) % 5])
+    return case
+
+
 # the caller of the two transforms (tomography_conv.py: TomographyConv._sirt_run_epoch, reached through the public
 # Tomography.from_data(...).sirt_recon(num_iterations=1)): the volume [cols, rows, rows] is forward projected as a
 # batch of `cols` images, the error sinograms [cols, A, rows] are back-projected as a batch with `filter_name`, and
@@ -766,7 +903,7 @@ ORACLES = {
     "radon": oracle_radon, "theta0": oracle_theta0, "radon-batch": oracle_radon_batch,
     "radon-linear": oracle_radon_linear, "filter": oracle_filter, "iradon": oracle_iradon,
     "iradon-batch": oracle_iradon_batch, "iradon-linear": oracle_iradon_linear, "sirt": oracle_sirt,
-    "reuse": oracle_reuse, "history": oracle_history,
+    "reuse": oracle_reuse, "history": oracle_history, "scale": oracle_scale,
 }
 
 
@@ -787,6 +924,13 @@ def _concrete(case):
         if case["kind"] == "iradon" and case["N"] <= 16:
             th = make_theta(case["theta_kind"], case["A"], case["seed"])
             out["sinogram_A_by_N"] = make_sino(case["sino_kind"], case["N"], th, case["seed"]).tolist()
+        if case["kind"] == "scale":
+            c, x, cx, batch = scale_data(case)
+            out["scale_factor_c"] = c
+            out["batch_amplitudes"] = [float(np.abs(z).max()) for z in batch]
+            if cx.shape[-1] <= 16:
+                out["scaled_sinogram_A_by_N" if case["transform"] == "iradon" else "scaled_image"] = cx.tolist()
+                out["unscaled_data_x"] = x.tolist()
         if case["kind"] in ("radon", "theta0") and case["n"] <= 16:
             out["image"] = make_image(case["img_kind"], case["n"], case["seed"]).tolist()
     except Exception:  # noqa
@@ -917,6 +1061,9 @@ def gen_oracle_cases(ctx: Ctx):
         cases.append({"kind": "iradon-linear", "N": r.choice(sizes[2:]), "filter": FILTERS[i % 6], "circle": i % 4 != 0,
                       "theta_kind": r.choice(THETA_KINDS), "A": r.choice([1, 3, 6]),
                       "a": r.choice([2.0, -0.5, 3.25]), "b": r.choice([1.0, -1.5, 0.25]), "seed": r.randrange(1 << 30)})
+    # --- amplitude scale of the data: 1e-12 .. 1e+12, float32 / float64, mixed amplitudes inside one batch
+    for i in range(ctx.budget(60, 500)):
+        cases.append(gen_scale_case(r, i))
     return cases
 
 
@@ -939,6 +1086,17 @@ def check_oracle(ctx: Ctx):
             ctx.dist("history/padded-size-%d" % case["P"])
             ctx.count(("history", case["P"], json.dumps(case["steps"], sort_keys=True, default=str)))
             ctx.cov["history_steps"] = ctx.cov.get("history_steps", 0) + len(case["steps"])
+        elif kind == "scale":
+            ctx.dist("scale/%s/%s/%s" % (case["transform"], case["dtype"], amp_bucket(case["k"])))
+            sb = ctx.cov.setdefault("scale_batches", {"batches": 0, "entries": 0, "amplitude_span_decades": {}})
+            span = max(case["ks"]) - min(case["ks"])
+            sp = "0" if span == 0 else "1-6" if span <= 6 else "7-12" if span <= 12 else "13-24"
+            sb["batches"] += 1
+            sb["entries"] += len(case["ks"])
+            sb["amplitude_span_decades"][sp] = sb["amplitude_span_decades"].get(sp, 0) + 1
+            ctx.count((kind, case["transform"], size, case["k"], case["m"], tuple(case["ks"]), case["dtype"],
+                       case.get("filter"), case.get("circle"), case["data_kind"], case["theta_kind"], case["A"], case["seed"]),
+                      nontrivial=size >= 3 and case["k"] != 0)
         elif kind == "filter":
             ctx.dist("filter/%s" % (case["filter"] or "none"))
             ctx.count(("filter", size, case["filter"]), nontrivial=case["filter"] is not None)
@@ -963,6 +1121,8 @@ def check_oracle(ctx: Ctx):
             for m in ("_rel", "_err"):
                 if m in case:
                     worst[kind] = max(worst.get(kind, 0.0), case[m])
+            if "_hom" in case:
+                worst["scale-homogeneity"] = max(worst.get("scale-homogeneity", 0.0), case["_hom"])
     for key in sorted(fails):
         size, what, case, detail = fails[key]
         ctx.violation(key, what, {"kind": "oracle", "case": _public(case), "detail": detail, **_concrete(case)})
@@ -1839,7 +1999,11 @@ def run(ctx: Ctx):
         "float32/float64, radon with repeated / changed sizes, angle sets and dtypes, batches, the SAME tensor objects "
         "handed to several calls; shuffled, every filter step repeated after all others), each step judged against "
         "scikit-image; a failing step is re-run in a fresh interpreter to tell a history-dependent failure from a "
-        "plain one. A case is distinct by (kind, size, image/sinogram kind, angle kind and count, filter, "
+        "plain one. AMPLITUDE SCALE — 60[500] cases: the same image / sinogram x c = m 10^k, k = -12..12, float32 / "
+        "float64, every filter, circle or not, sizes 2..40: homogeneity f(c x) = c f(x), agreement with scikit-image on "
+        "c x, and a batch of 2-4 entries of different amplitudes (the scaled array, an O(1) array, random decades) = "
+        "the per-image calls, every clause relative to the amplitude of the entry judged. "
+        "A case is distinct by (kind, size, image/sinogram kind, angle kind and count, filter, "
         "circle, output size, dtype, seed); non-trivial when size >= 3 (filters: name is not None)")
     ctx.assumptions += [
         "scikit-image 0.26 (skimage.transform.radon / iradon / _get_fourier_filter, float64) is the reference the "
